@@ -21,6 +21,7 @@ type Gen struct {
 	Pkgs     []*packages.Package
 	SSAPkgs  map[string]*ssa.Package // by package name
 	CS       *ContractSet
+	tagTys   map[string]types.Type // struct types mentioned in elemOf/tagged (see idtags.go)
 	Pures    map[string]*PureFn
 	strLits  map[string]string
 	strOrder []string
@@ -304,6 +305,11 @@ func (g *Gen) resolveHeapSpec(pkg *types.Package, spec string) []string {
 
 // unchangedAll: every heap (except those listed) agrees between old and cur on refs allocated in old.
 func (g *Gen) unchangedAll(old, cur HeapView, except map[string]bool) string {
+	return g.unchangedAllBound(old, cur, except, "")
+}
+
+// unchangedAllBound: as unchangedAll, for the refs whose id is below bound ("" = allocated in old).
+func (g *Gen) unchangedAllBound(old, cur HeapView, except map[string]bool, bound string) string {
 	os, ok1 := old.(*State)
 	cs, ok2 := cur.(*State)
 	if !ok1 || !ok2 {
@@ -337,7 +343,11 @@ func (g *Gen) unchangedAll(old, cur HeapView, except map[string]bool) string {
 			parts = append(parts, fmt.Sprintf("(= %s %s)", a, b))
 			continue
 		}
-		parts = append(parts, fmt.Sprintf("(forall ((r Ref)) (! (=> (alloc r %s) (= (select %s r) (select %s r))) :pattern ((select %s r))))", os.Next(), b, a, b))
+		bd := os.Next()
+		if bound != "" {
+			bd = bound
+		}
+		parts = append(parts, fmt.Sprintf("(forall ((r Ref)) (! (=> (alloc r %s) (= (select %s r) (select %s r))) :pattern ((select %s r))))", bd, b, a, b))
 	}
 	if len(parts) == 0 {
 		return "true"
